@@ -12,7 +12,7 @@ import contracts.c06 as c06        # noqa: F401  sort_idx_canonical (props C06, 
 
 ASSUMPTIONS = c06.ASSUMPTIONS + [
     "tensor names and configured base names are arbitrary strings (z3 string theory, ASCII digits for str.isnumeric); the configured base names are non empty",
-    "the index registry (Indices.get_indices / get_generic_indices / _gen_generic_idx), cached_member / cached_property / Singleton and is_t_amplitude / is_gs_density / split_* (string slicing and str.isnumeric over arbitrary strings: z3 and cvc5 both left the obligation open within 80 s, so no contract is claimed) are only covered by bounded stand-ins (registry.identity_and_freshness under C08, independence.hashseed_history_config)",
+    "the index registry (Indices.get_indices / get_generic_indices / _gen_generic_idx), cached_member / cached_property / Singleton and is_t_amplitude / is_gs_density (str.replace and str.isnumeric over arbitrary strings: z3 and cvc5 both left the obligation open within 80 s, so no contract is claimed; the split_* functions they build on are under contract) are only covered by bounded stand-ins (registry.identity_and_freshness under C08, independence.hashseed_history_config)",
 ]
 TRUSTED = []
 DIGITS1 = z3.Plus(z3.Range("0", "9"))
@@ -35,6 +35,49 @@ class IsAdcAmplitude(Contract):
         spec = z3.Or(name == a["_l"], name == a["_r"])
         return [("true-iff-one-of-the-two-configured-amplitude-names",
                  zeq(vc.ip.truth_term(result) if not isinstance(result, bool) else result, spec))]
+
+
+class _SplitName(Contract):
+    """split_*_name(name): the name is cut behind the length of the configured base name of
+    THAT family (whatever the other configured names are): a name that starts with the
+    configured base name is split into exactly that base name and the rest."""
+    props = ["C19"]
+    field = None
+
+    def setup(self, vc):
+        name = z3.String("name")
+        amp, dens = z3.String("configured_gs_amplitude"), z3.String("configured_gs_density")
+        vc.assume(z3.And(z3.Length(amp) >= 1, z3.Length(dens) >= 1))
+        C.EXTERNALS["adcgen.tensor_names:tensor_names"] = Struct(
+            "TensorNames", gs_amplitude=Sym(amp), gs_density=Sym(dens))
+        return {"name": Sym(name), "_cfg": {"gs_amplitude": amp, "gs_density": dens}}
+
+    def post(self, vc, a, result):
+        name, cfg = a["name"].t, a["_cfg"][self.field]
+        items = result.items if hasattr(result, "items") else list(result)
+        base, ext = term(items[0]), term(items[1])
+        # (base ++ ext == name, stated as prefix / rest / lengths: the concatenation itself takes
+        #  the sequence solver 10-20 s, these three are decided in milliseconds)
+        return [("base-is-a-prefix-of-the-name", z3.PrefixOf(base, name)),
+                ("extension-is-the-rest-of-the-name",
+                 ext == z3.SubString(name, z3.Length(base), z3.Length(name) - z3.Length(base))),
+                ("base-and-extension-have-the-length-of-the-name",
+                 z3.Length(base) + z3.Length(ext) == z3.Length(name)),
+                ("a-name-of-the-family-is-split-behind-its-configured-base-name",
+                 z3.Implies(z3.PrefixOf(cfg, name), base == cfg)),
+                ("the-base-is-never-longer-than-the-configured-base-name", z3.Length(base) <= z3.Length(cfg))]
+
+
+@register
+class SplitGsDensityName(_SplitName):
+    key = "adcgen.tensor_names:split_gs_density_name"
+    field = "gs_density"
+
+
+@register
+class SplitTAmplitudeName(_SplitName):
+    key = "adcgen.tensor_names:split_t_amplitude_name"
+    field = "gs_amplitude"
 
 
 @lemma("C19", "uncached")
